@@ -217,6 +217,20 @@ def rule_P2(prog, fixture=False):
     return res
 
 
+def _returns_tls_engine(prog, usr, engine_names):
+    g = prog.functions.get(usr)
+    if g is None:
+        return False
+    rets = [n for n in g.walk() if n.k == "ReturnStmt" and n.c]
+    if not rets or not (g.get("ret") or "").endswith("&"):
+        return False
+    for r in rets:
+        e = r.c[0].strip_all()
+        if not (e.k == "DeclRefExpr" and e.decl.get("k") == "global" and e.decl.get("tls") and e.decl.get("qn") in engine_names):
+            return False
+    return True
+
+
 def rule_P2b(prog, fixture=False):
     res = RuleResult("P2b", "exactly one random engine exists, it is thread_local, every distribution draws from it, "
                             "and no other entropy source (random_device, rand, clocks) is called anywhere in the library")
@@ -287,6 +301,8 @@ def rule_P2b(prog, fixture=False):
                     a = args[0].strip_all()
                     if a.k == "DeclRefExpr" and a.decl.get("k") == "global" and a.decl.get("qn") in engine_names and a.decl.get("tls"):
                         ok = True
+                    elif a.k == "CallExpr" and a.callee and _returns_tls_engine(prog, a.callee.get("usr"), engine_names):
+                        ok = True       # accessor idiom: engine() { thread_local std::mt19937 e; return e; }
                 okey = "P2b:draw:%s:l%d" % (fkey(f), 0)
                 if ok:
                     res.add("P2b:draw:%s" % fkey(f), DISCHARGED, "%s:%d" % (prog.rel(f.file), n.line),
